@@ -958,7 +958,7 @@ func runFirstBytes(c *run.Ctx, s *kit.Summary, r *kit.Rng) {
 
 func runC08(c *run.Ctx, s *kit.Summary) {
 	r := kit.NewRng(c.Seed)
-	s.Rule = "detect: gob/CSV/JSON streams of 1…50 heterogeneous intersection-domain records (profiles small, big-first, big-later, big-all with bodies 3000…170000 bytes, plain-first) through readers with chunk sizes 1, 7, 4096, other fixed sizes, random, full, with the last bytes delivered together with io.EOF and with occasional (0, nil) reads, and with one record ending exactly on / next to a 4096·k or 65536 edge of the stream or having exactly that encoded length; garbage (in child processes): random bytes, texts, mutated/truncated/spliced streams, two gob streams announcing a huge map (fatal inside encoding/gob, counted as skipped); model: the DecoderFor loop rebuilt from the io primitives with real and with scripted decoders, every read compared with the Lean reader algebra; chains: every chain over {gob,csv,json} of length 1…4 through the in-process encode command, plus chains carrying a record the JSON encoder refuses (year > 9999: the step may fail, but a reported success must still decode to the original); command level: encode/report over argument lists containing a file in none of the formats must not report success (nor hang); non-trivial = stream with ≥ 2 records or a chain or a scripted run with ≥ 2 trials"
+	s.Rule = "detect: gob/CSV/JSON streams of 1…50 heterogeneous intersection-domain records (texts with quotes, commas, LF, lone CR also at the start/end and after LF, NUL, tab, form feed, U+2028/2029/0085; plus, where the encodings on the path carry them, CR LF (not CSV) and invalid UTF-8 (not JSON); profiles small, big-first, big-later, big-all with bodies 3000…170000 bytes, plain-first) through readers with chunk sizes 1, 7, 4096, other fixed sizes, random, full, with the last bytes delivered together with io.EOF and with occasional (0, nil) reads, and with one record ending exactly on / next to a 4096·k or 65536 edge of the stream or having exactly that encoded length; garbage (in child processes): random bytes, texts, mutated/truncated/spliced streams, two gob streams announcing a huge map (fatal inside encoding/gob, counted as skipped); model: the DecoderFor loop rebuilt from the io primitives with real and with scripted decoders, every read compared with the Lean reader algebra; chains: every chain over {gob,csv,json} of length 1…4 through the in-process encode command, plus chains carrying a record the JSON encoder refuses (year > 9999: the step may fail, but a reported success must still decode to the original); command level: encode/report over argument lists containing a file in none of the formats must not report success (nor hang); non-trivial = stream with ≥ 2 records or a chain or a scripted run with ≥ 2 trials"
 	if c.Replay != "" {
 		replay(c, s)
 		return
@@ -985,6 +985,12 @@ func runC08(c *run.Ctx, s *kit.Summary) {
 				profile = "boundary"
 				s.Count(fmt.Sprintf("detect:boundary=%d", t))
 				s.Count(fmt.Sprintf("detect:boundary_first_record=%v", pos == 0))
+			}
+		}
+		if r.Chance(0.3) {
+			// texts only this encoding carries: CR LF (not CSV), invalid UTF-8 (not JSON)
+			if how := gen.SpiceText(r, &rs[r.Pick(len(rs))], sc.Enc != "csv", sc.Enc != "json"); how != "" {
+				s.Count("detect:text_with_" + how)
 			}
 		}
 		if sc.Chunk.Mode != "full" && r.Chance(0.15) {
@@ -1061,6 +1067,13 @@ func runC08(c *run.Ctx, s *kit.Summary) {
 				rs = rs[:12]
 			}
 			cc := chainCase{Records: rs, Start: encodings[r.Pick(3)], Chain: ch}
+			if r.Chance(0.4) {
+				// texts that every encoding on this chain's path carries, although not all three do
+				path := cc.Start + ">" + strings.Join(ch, ">")
+				if how := gen.SpiceText(r, &cc.Records[r.Pick(len(rs))], !strings.Contains(path, "csv"), !strings.Contains(path, "json")); how != "" {
+					s.Count("chain:text_with_" + how)
+				}
+			}
 			switch r.Pick(6) {
 			case 0:
 				cc.Prefill = "junk"
